@@ -1111,12 +1111,12 @@ func (c *FnCtx) mapCard(st *State, mt *types.Map, ref string) string {
 
 func (c *FnCtx) mapValue(st *State, mt *types.Map, ref, key string) Val {
 	mv, _, _ := mapNames(mt)
-	return buildVal(mt.Elem(), func(lf leaf) string {
+	return c.sliceFacts(buildVal(mt.Elem(), func(lf leaf) string {
 		a := c.heapGet(st, mv+lf.path, arr2Sort(lf.sort))
 		term := "(select (select " + a + " " + ref + ") " + key + ")"
 		c.leafFact(st, term, lf)
 		return term
-	})
+	}))
 }
 
 func (c *FnCtx) mapStore(st *State, mt *types.Map, ref string, k, v Val) {
